@@ -63,14 +63,14 @@ def run_case(ctx, rng, idx):
 
 def gen_uw(rng, N, K, diag=None, positive=False):
     nr = np.random.default_rng(rng.randrange(2**32))
-    u = nr.random((N, K)) * rng.choice([1.0, 3.0])
+    u = nr.random((N, K)) * rng.choice([1.0, 3.0, 1.0, 3.0, 1e-3, 1e3, 1e5])
     if not positive:
         u[nr.random((N, K)) < 0.25] = 0.0
         if rng.random() < 0.3:
             u[rng.randrange(N)] = 0.0
     else:
         u += 0.05
-    w = nr.random((K, K)) * rng.choice([1.0, 0.2, 4.0])
+    w = nr.random((K, K)) * rng.choice([1.0, 0.2, 4.0, 1e-9, 1e-5, 1e4])
     w = np.triu(w, 0) + np.triu(w, 1).T
     if diag if diag is not None else rng.random() < 0.4:
         w = np.diag(np.diag(w))
